@@ -32,7 +32,7 @@ func (o icOp) String() string {
 			return fmt.Sprintf("set(%d,c%d,ttl%d)", o.K, o.Cost, o.TTL)
 		}
 		return fmt.Sprintf("set(%d,c%d)", o.K, o.Cost)
-	case "get", "del", "lget":
+	case "get", "del", "lget", "hget", "hdel":
 		return fmt.Sprintf("%s(%d)", o.Kind, o.K)
 	case "adv":
 		return fmt.Sprintf("adv(%d)", o.Arg)
@@ -86,7 +86,8 @@ type icCfg struct {
 	Procs    int
 	Coarse   bool
 	HB       bool
-	Fresh    bool // pool Get may return fresh objects
+	Fresh    bool     // pool Get may return fresh objects
+	Hy       *hyIcCfg // hybrid drivers: a scripted secondary store is attached (hybrid_lib_test.go)
 }
 
 type icRun struct {
@@ -110,6 +111,7 @@ type icRun struct {
 	noteAt       []int           // logical time of each listener call
 	km           map[int]int     // symbolic key -> actual key (1,2,4 share a shard; 3 lives in another)
 	cur          map[int]*icCall // thread id -> the call it is executing
+	hy           *hyIcRun        // hybrid part (nil unless cfg.Hy)
 }
 
 var errLoad = errors.New("load failed")
@@ -225,7 +227,9 @@ func (r *icRun) do(client int, op icOp, nextV *int) *icCall {
 		vrt.Advance(op.Arg)
 		c.OK = true
 	default:
-		panic("icb: unknown op " + op.Kind)
+		if r.hy == nil || !r.hyIcDo(c, op) {
+			panic("icb: unknown op " + op.Kind)
+		}
 	}
 	c.Ret = r.tick()
 	finished = true
@@ -243,9 +247,21 @@ func icBody(cfg *icCfg) (*icRun, func()) {
 			if cfg.Loading {
 				o.Loader = r.loader(&curClient)
 			}
+			if cfg.Hy != nil {
+				r.hyIcInit(&o)
+			}
 			nthreads = len(vrt.S.Threads)
 			r.h = newHStore(o)
-			r.h.onNote = func(hNote) { r.noteAt = append(r.noteAt, r.tick()) }
+			if cfg.Hy != nil {
+				r.hyIcStart(nthreads)
+			}
+			prevNote := r.h.onNote
+			r.h.onNote = func(n hNote) {
+				r.noteAt = append(r.noteAt, r.tick())
+				if prevNote != nil {
+					prevNote(n)
+				}
+			}
 			same, other := sameShardKeys(r.h.s, 3)
 			r.km = map[int]int{1: same[0], 2: same[1], 3: other, 4: same[2]}
 			// shards that hold none of the driver's keys stay empty: their locks are not scheduling points
@@ -342,7 +358,7 @@ func (r *icRun) history() string {
 		switch c.Op.Kind {
 		case "set":
 			res = fmt.Sprintf("v%d->%v", c.V, c.OK)
-		case "get", "lget":
+		case "get", "lget", "hget":
 			res = fmt.Sprintf("->%d,%v%s", c.Got, c.OK, c.Err)
 			if c.Loaded {
 				res += fmt.Sprintf("[loaded %d]", c.V)
